@@ -175,8 +175,8 @@ fn space_lens(cfg: &Cfg) -> Vec<usize> {
         (Scale::Tiny, _) => vec![300],
         (Scale::Mid, Tier::Quick) => vec![3001, 100_003],
         (Scale::Mid, Tier::Thorough) => vec![0, 1, 3001, 100_003, 600_011],
-        (Scale::Full, Tier::Quick) => vec![0, 1, 3001, 100_003, 1_000_003, 5_300_003],
-        (Scale::Full, Tier::Thorough) => vec![0, 1, 257, 3001, 100_003, 1_000_003, 4_000_037, 9_000_011],
+        (Scale::Full, Tier::Quick) => vec![0, 1, 3001, 100_003, 1_000_003, 9_000_011],
+        (Scale::Full, Tier::Thorough) => vec![0, 1, 257, 3001, 100_003, 1_000_003, 4_000_037, 9_000_011, 17_500_007],
     }
 }
 
@@ -205,6 +205,10 @@ pub fn cases_c14(cfg: &Cfg) -> Vec<Case> {
             for (ai, alias) in aliases.iter().enumerate() {
                 // big inputs: a rotating subset of (alphabet, alias) pairs
                 if n > 200_000 && (mi + ai + k) % 4 != 0 {
+                    continue;
+                }
+                // the longest inputs (levels beyond 2 MiB / 4 MiB of quad data): trees of at most 8 levels
+                if n > 6_000_000 && bitlen(*max) > 16 {
                     continue;
                 }
                 if cfg.scale == Scale::Tiny && (mi + ai) % 7 != 0 {
